@@ -1,7 +1,9 @@
 (* C08 — each streaming-decoder call obeys its status / read / required contract.
    Statements only; proofs in theories/PStream_proofs.v. *)
 From CB Require Import Word PStream SpecHead PRun GenTypes PStream_proofs Bridge_dispatch.
-From CBGen Require Import Gen_dispatch.
+From CBGen Require Import Gen_dispatch Gen_leaf.
+From CB Require Import GenLeafTypes Bridge_leaf_dec.
+From Coq Require Import ZArith.
 Local Open Scope N_scope.
 
 (* for every buffer, exactly one of: FINISHED with exactly the event of the RFC 8949 head at the
@@ -42,3 +44,19 @@ Example C08_examples :
   stream_decode [0x5B; 255; 255; 255; 255; 255; 255; 255; 255; 1] = SRes (mkdres Nedata 0 SIZE_MAX) None /\
   stream_decode [0x1C] = SRes (mkdres DError 0 0) None /\ bytes_ok [0x19; 0x03; 0xE8; 0xFF].
 Proof. repeat split; try (vm_compute; reflexivity). repeat constructor. Qed.
+
+(* claim_bytes and the big-endian loaders, as translated from this run's clang AST, are the model's *)
+Theorem C08_code_claim_bytes : forall required provided r, required < 2^64 -> provided < 2^64 -> rd r < 2^64 ->
+  gclaim_bytes (Z.of_N required) (Z.of_N provided) (Z.of_N (rd r)) (zstatus (st r)) (Z.of_N (req r)) =
+  let (ok, r') := claim_bytes required provided r in (b2z ok, Z.of_N (rd r'), zstatus (st r'), Z.of_N (req r')).
+Proof. exact bridge_claim_bytes. Qed.
+Theorem C08_code_load_uint16 : forall b0 b1, b0 < 256 -> b1 < 256 -> g_cbor_load_uint16 (srcf [b0; b1]) = Z.of_N (be_val [b0; b1]).
+Proof. exact bridge_load_uint16. Qed.
+Theorem C08_code_load_uint32 : forall b0 b1 b2 b3, b0 < 256 -> b1 < 256 -> b2 < 256 -> b3 < 256 ->
+  g_cbor_load_uint32 (srcf [b0; b1; b2; b3]) = Z.of_N (be_val [b0; b1; b2; b3]).
+Proof. exact bridge_load_uint32. Qed.
+Theorem C08_code_load_uint64 : forall b0 b1 b2 b3 b4 b5 b6 b7,
+  b0 < 256 -> b1 < 256 -> b2 < 256 -> b3 < 256 -> b4 < 256 -> b5 < 256 -> b6 < 256 -> b7 < 256 ->
+  g_cbor_load_uint64 (srcf [b0; b1; b2; b3; b4; b5; b6; b7]) = Z.of_N (be_val [b0; b1; b2; b3; b4; b5; b6; b7]).
+Proof. exact bridge_load_uint64. Qed.
+Print Assumptions C08_code_claim_bytes.
